@@ -106,7 +106,10 @@ def diagnose (p : Problem) (t : Rat) (m : Model) : List String :=
       ((List.range p.np).filterMap fun i =>
         if decide (m.x i < m.minX i - t) || decide (m.x i > m.maxX i + t) then some s!"rangeX:{i}" else none)
     else []
-  mb.map (fun e => s!"mb:{e}") ++ up ++ low ++ al ++ fin ++ ph ++ rg
+  let isoMb := (List.range p.nIso).filterMap fun n =>
+    if decide (absR ((p.isoRow n).eval m.assign) > t) then some s!"isoMb:{n}" else none
+  let isoB := if p.nIso > 0 && isoMb.isEmpty && !p.checkIso t m then ["isoBound"] else []
+  mb.map (fun e => s!"mb:{e}") ++ up ++ low ++ al ++ fin ++ ph ++ rg ++ isoMb ++ isoB
 
 def maxAbs (l : List Rat) : Rat := l.foldl (fun a b => if absR b > a then absR b else a) 0
 
